@@ -426,6 +426,12 @@ def gen_universe(r):
             elif it['k'] == 'class':
                 for f in it['fields']:
                     f['expr'] = amplify(r, f['expr'], 0.5, g0.lits)
+    # a named ignore rule is a user-declared parameterless rule like any other: give it a probe
+    for it in s0['items']:
+        if it['k'] == 'rule' and it.get('ignore') and it['expr'][0] == 're' and r.random() < 0.7:
+            it['gap_pattern'] = it['expr'][1]
+            g0.tagn += 1
+            it['expr'] = ['right', ['hook', 'hg%d' % g0.tagn], it['expr']]
     m0 = C.ModInfo(0, U.PREFIX + 'g0' if named0 else None, None, s0, g0)
     m0.fixed_texts = fam_texts
     m0.long_texts = long_texts
@@ -583,7 +589,7 @@ class Planner(C.Planner):
 
 def prepare(verif_seed, index):
     useed = rngm.derive('universe', verif_seed, PROP, index // RUNS_PER_UNIVERSE)
-    gen_universe(rngm.stream(useed, 'universe'))
+    C.warm_hot_lines(gen_universe(rngm.stream(useed, 'universe')))
 
 
 def run_one(verif_seed, index, tier='quick'):
